@@ -31,6 +31,10 @@ fn f(scope: Scope, sig: &str, detail: String) -> Finding {
     Finding { scope, sig: sig.to_string(), detail }
 }
 
+/// response codes an application may put on a long reply: success codes other than 2.05 and
+/// client / server errors with a long diagnostic payload
+pub const REPLY_CODES: [u8; 8] = [0x84, 0xa3, 0x80, 0x44, 0x41, 0xa0, 0x8f, 0x43];
+
 #[derive(Clone, Debug, PartialEq)]
 pub enum Strategy {
     /// no Block2 in the first request; follow the server's size
@@ -78,11 +82,14 @@ pub struct DlCfg {
     /// do not send the two probing requests after the transfer (sessions: the next transfer is
     /// the probe, and extra requests would overwrite what the finished transfer left behind)
     pub skip_release_probes: bool,
+    /// response code the application answers with (2.05 unless a workload says otherwise): the
+    /// handler fragments whatever the application produced, error replies with long diagnostics included
+    pub reply_code: u8,
 }
 
 impl DlCfg {
     pub fn base() -> DlCfg {
-        DlCfg { ep: 0, path: vec![], body: vec![], reply_opts: vec![], tkl: 0, strategy: Strategy::Follow, typ: 0, abandon_after: None, vary_tkl: false, code: 1, upload: None, req_payload: vec![], noise_between_blocks: 0, overlap_first_exchange: 0, skip_release_probes: false, stale_resume_first: None, late_block_probe: false, single_block1_everywhere: false }
+        DlCfg { ep: 0, path: vec![], body: vec![], reply_opts: vec![], tkl: 0, strategy: Strategy::Follow, typ: 0, abandon_after: None, vary_tkl: false, code: 1, upload: None, req_payload: vec![], noise_between_blocks: 0, overlap_first_exchange: 0, skip_release_probes: false, stale_resume_first: None, late_block_probe: false, single_block1_everywhere: false, reply_code: 0x45 }
     }
 }
 
@@ -142,9 +149,11 @@ pub fn download(server: &mut Server, cfg: &DlCfg, ids: &mut Ids) -> (Vec<Finding
     let own_calls_in_app = own_calls.clone();
     let body = cfg.body.clone();
     let reply_opts = cfg.reply_opts.clone();
+    // (a refused stale resume is recognised by its class, so those transfers keep 2.05)
+    let reply_code = if cfg.stale_resume_first.is_some() { 0x45 } else { cfg.reply_code };
     let mut app = move |_r: &coap_lite::CoapRequest<CEp>| {
         own_calls_in_app.set(own_calls_in_app.get() + 1);
-        AppReply { code: 0x45, options: reply_opts.clone(), payload: body.clone() }
+        AppReply { code: reply_code, options: reply_opts.clone(), payload: body.clone() }
     };
 
     let mut client_szx: Option<u8> = match &cfg.strategy {
@@ -334,8 +343,8 @@ pub fn download(server: &mut Server, cfg: &DlCfg, ids: &mut Ids) -> (Vec<Finding
         if reply.header.message_id != cur_req.mid || reply.get_token() != &cur_req.token[..] {
             bail!(Scope::Transfer, "reply-mid-or-token", "reply mid {} token {} for request mid {} token {}", reply.header.message_id, hex(reply.get_token()), cur_req.mid, hex(&cur_req.token));
         }
-        if u8::from(reply.header.code) != 0x45 {
-            bail!(Scope::Transfer, "reply-code", "code {} on block {}", reply.header.code, blocks_done);
+        if u8::from(reply.header.code) != reply_code {
+            bail!(Scope::Transfer, "reply-code", "code {} on block {} (the application answered {:#04x})", reply.header.code, blocks_done, reply_code);
         }
         let mut got_opts = reply_opts_without(reply, 23);
         if cfg.upload.is_some() || first_block1.is_some() {
@@ -867,7 +876,7 @@ fn dl_one(rep: &mut Report, budget: usize, cfg: &DlCfg, ids: &mut Ids, scope: Sc
 pub fn run_sessions(rep: &mut Report, r: &mut Rng, n: u64, level: u32, scope: Scope, ids: &mut Ids) {
     for _ in 0..n {
         rep.eval();
-        let code = *r.pick(&[2u8, 3, 5, 1]);
+        let code = *r.pick(&[2u8, 3, 5, 1, 6, 7]);
         let tkl = r.usize_below(9);
         let opts = gen_reply_opts(r);
         let overhead = reply_overhead(tkl, &opts) + 4; // + Block1 acknowledgement
@@ -906,7 +915,7 @@ pub fn run_sessions(rep: &mut Report, r: &mut Rng, n: u64, level: u32, scope: Sc
                 _ => Strategy::Reduce { early: None, after: r.urange(1, 2), new_szx: r.below(2) as u8 },
             };
             let upload_is_none = upload.is_none();
-            let cfg = DlCfg { ep: 7, path: vec!["sess".into()], body: body_bytes(r.next_u64(), blen), reply_opts: opts.clone(), tkl, strategy, typ: 0, abandon_after: None, vary_tkl: r.chance(1, 3), code, upload, req_payload: if code != 1 && r.bool() { b"q".to_vec() } else { vec![] }, noise_between_blocks: 0, overlap_first_exchange: 0, skip_release_probes: t + 1 < ntx && r.chance(2, 3), stale_resume_first: if r.chance(1, 8) { Some((r.urange(3, 3000) as u32, r.below(7) as u8)) } else { None } , late_block_probe: false , single_block1_everywhere: code != 1 && upload_is_none && r.chance(1, 2) };
+            let cfg = DlCfg { ep: 7, path: vec!["sess".into()], body: body_bytes(r.next_u64(), blen), reply_opts: opts.clone(), tkl, strategy, typ: 0, abandon_after: None, vary_tkl: r.chance(1, 3), code, upload, req_payload: if code != 1 && r.bool() { b"q".to_vec() } else { vec![] }, noise_between_blocks: 0, overlap_first_exchange: 0, skip_release_probes: t + 1 < ntx && r.chance(2, 3), stale_resume_first: if r.chance(1, 8) { Some((r.urange(3, 3000) as u32, r.below(7) as u8)) } else { None } , late_block_probe: false , single_block1_everywhere: code != 1 && upload_is_none && r.chance(1, 2), reply_code: if r.chance(1, 5) { *r.pick(&REPLY_CODES) } else { 0x45 } };
             story.push(format!("#{} {} upload {:?} reply {}B strategy {:?} vary_tkl {}", t, coap_lite::MessageClass::from(code), cfg.upload.as_ref().map(|u| (u.0.len(), szx_size(u.1))), blen, cfg.strategy, cfg.vary_tkl));
             let witness = format!("session on one handler and key, budget {} reply options {:?}: {}", m, opts.iter().map(|o| o.0).collect::<Vec<_>>(), story.join(" ; "));
             set_case_str(&witness);
@@ -1067,7 +1076,10 @@ pub fn noise_request(server: &mut Server, id: u32, ep: u32, path: &[String], obs
 /// `same_mid`: the message id of the observed request that is in flight right now - ids are per
 /// client, so other clients' requests may well carry the same one
 pub fn noise_request_mid(server: &mut Server, id: u32, ep: u32, path: &[String], observed_code: u8, same_mid: Option<u16>) {
-    let mut small = |_r: &coap_lite::CoapRequest<CEp>| AppReply::content(b"n".to_vec());
+    // the application's answers on the neighbouring keys carry different codes (2.02 Deleted, 2.04,
+    // 2.01, 2.03, 4.04 ...): what happened to a neighbouring resource says nothing about this transfer
+    let small_code = [0x45u8, 0x44, 0x41, 0x45, 0x43, 0x84, 0x45, 0x42][((id / 3) as usize * 7 + (id / 15) as usize) % 8];
+    let mut small = move |_r: &coap_lite::CoapRequest<CEp>| AppReply { code: small_code, options: vec![], payload: b"n".to_vec() };
     let the_mid = match same_mid {
         Some(m) if id % 2 == 0 => m,
         _ => id as u16,
@@ -1203,7 +1215,7 @@ pub fn run_c08(ctx: &mut Ctx) {
                 };
                 // budget that yields exactly `size`: overhead + 12 + size + d, d < size
                 let m = overhead + 12 + size + (len * 7 + strat) % size;
-                let cfg = DlCfg { ep: 1, path: vec!["res".into(), format!("{}", len)], body: body_bytes(len as u64, len), reply_opts, tkl, strategy, typ: (len % 2) as u8, abandon_after: None, vary_tkl: false, ..DlCfg::base() };
+                let cfg = DlCfg { ep: 1, path: vec!["res".into(), format!("{}", len)], body: body_bytes(len as u64, len), reply_opts, tkl, strategy, typ: (len % 2) as u8, abandon_after: None, vary_tkl: false, reply_code: if len % 3 == 1 { REPLY_CODES[(len / 3) % REPLY_CODES.len()] } else { 0x45 }, ..DlCfg::base() };
                 dl_one(rep, m, &cfg, &mut ids, Scope::Transfer);
             }
         }
@@ -1244,7 +1256,7 @@ pub fn run_c08(ctx: &mut Ctx) {
             3 => vec!["Aa".into(), "BB".into()],
             _ => vec!["d".into(), format!("{}", r.below(5))],
         };
-        let cfg = DlCfg { ep: r.below(4) as u32, path, body: body_bytes(r.next_u64(), len), reply_opts, tkl, strategy, typ: r.below(2) as u8, abandon_after: None, vary_tkl: r.chance(1, 3), stale_resume_first: if r.chance(1, 8) { Some((r.urange(3, 3000) as u32, r.below(7) as u8)) } else { None }, ..DlCfg::base() };
+        let cfg = DlCfg { ep: r.below(4) as u32, path, body: body_bytes(r.next_u64(), len), reply_opts, tkl, strategy, typ: r.below(2) as u8, abandon_after: None, vary_tkl: r.chance(1, 3), stale_resume_first: if r.chance(1, 8) { Some((r.urange(3, 3000) as u32, r.below(7) as u8)) } else { None }, reply_code: if r.chance(1, 4) { *r.pick(&REPLY_CODES) } else { 0x45 }, ..DlCfg::base() };
         if cfg.stale_resume_first.is_some() {
             rep.count("transfers_after_a_stale_resume_attempt");
         }
@@ -1393,7 +1405,7 @@ fn upload_while_old_reply_is_fetched(rep: &mut Report, r: &mut Rng) {
             let nblocks = 4 + r.usize_below(3);
             let body = body_bytes(r.next_u64(), s * (nblocks - 1) + 1 + r.usize_below(s));
             let old_reply = body_bytes(r.next_u64() ^ 7, 100 + r.usize_below(60));
-            let code = *r.pick(&[2u8, 5]);
+            let code = *r.pick(&[2u8, 5, 7, 3, 6]);
             let witness = format!("method {:#04x} on one key: an earlier request was answered block-wise ({} bytes, block 0 read), then an upload of {} blocks of {} bytes during which, after block {}, the rest of the old reply is fetched", code, old_reply.len(), nblocks, s, fetch_at);
             set_case_str(&witness);
             let mut server = Server::new(200, LONG);
@@ -1503,7 +1515,7 @@ pub fn run_c09(ctx: &mut Ctx) {
                         2 => Some((body_bytes(998, 2 * s), szx, 1)),                 // shorter
                         _ => Some((body_bytes(997, 700), if szx > 0 { szx - 1 } else { 1 }, 1 + len % 5)), // other block size
                     };
-                    let cfg = UlCfg { ep: 3, path: vec!["up".into()], body, szx, dups: vec![1 + (len % 3) as u8, 1, 2], tkl: len % 9, abandoned, extra: vec![], code: 3, extra_from: 0, oversized_first_try: None, abandoned_size1: None, announce_size1: false };
+                    let cfg = UlCfg { ep: 3, path: vec!["up".into()], body, szx, dups: vec![1 + (len % 3) as u8, 1, 2], tkl: len % 9, abandoned, extra: vec![], code: [3u8, 2, 7, 5, 6][len % 5], extra_from: 0, oversized_first_try: None, abandoned_size1: None, announce_size1: false };
                     let mut probe = ReqSpec::new(3, &["up"]);
                     probe.block1 = Some((70, true, szx));
                     probe.token = vec![0; cfg.tkl];
@@ -1553,7 +1565,7 @@ pub fn run_c09(ctx: &mut Ctx) {
             vec![]
         };
         let path: Vec<String> = (0..r.urange(1, 3)).map(|i| format!("p{}", i)).collect();
-        let cfg = UlCfg { ep: r.below(3) as u32, path, body: new_body, szx, dups: (0..3).map(|_| r.urange(1, 3) as u8).collect(), tkl: r.usize_below(9), abandoned, extra, code: *r.pick(&[2u8, 3, 5, 6]), extra_from: 0, oversized_first_try: if r.chance(1, 4) { Some(*r.pick(&[0usize, 20, 60, 116, 200])) } else { None }, abandoned_size1: if r.chance(1, 3) { Some(match r.below(4) { 0 => len as u32 + 1 + r.below(4000) as u32, 1 => len as u32, 2 => (len as u32).saturating_sub(1 + r.below(40) as u32), _ => r.below(6000) as u32 }) } else { None }, announce_size1: r.chance(1, 5) };
+        let cfg = UlCfg { ep: r.below(3) as u32, path, body: new_body, szx, dups: (0..3).map(|_| r.urange(1, 3) as u8).collect(), tkl: r.usize_below(9), abandoned, extra, code: *r.pick(&[2u8, 3, 5, 6, 7, 7]), extra_from: 0, oversized_first_try: if r.chance(1, 4) { Some(*r.pick(&[0usize, 20, 60, 116, 200])) } else { None }, abandoned_size1: if r.chance(1, 3) { Some(match r.below(4) { 0 => len as u32 + 1 + r.below(4000) as u32, 1 => len as u32, 2 => (len as u32).saturating_sub(1 + r.below(40) as u32), _ => r.below(6000) as u32 }) } else { None }, announce_size1: r.chance(1, 5) };
         let pathrefs: Vec<&str> = cfg.path.iter().map(|s| s.as_str()).collect();
         let mut probe = ReqSpec::new(cfg.code, &pathrefs);
         probe.block1 = Some((400, true, szx));
@@ -1570,7 +1582,7 @@ pub fn run_c09(ctx: &mut Ctx) {
     let n413 = if level == 0 { 12 } else { (budget / 4).max(40) };
     for _ in 0..n413 {
         rep.eval();
-        let mut req = ReqSpec::new(*r.pick(&[2u8, 3]), &["big"]);
+        let mut req = ReqSpec::new(*r.pick(&[2u8, 3, 5, 6, 7]), &["big"]);
         let tl = r.usize_below(9);
         req.token = r.bytes(tl);
         req.mid = r.next_u64() as u16;
@@ -1714,7 +1726,7 @@ pub fn run_c10(ctx: &mut Ctx) {
                         Some(s) => Strategy::Early(s),
                     };
                     let len = [0usize, 10, 100, 700, 2100][(idx as usize + optsel) % 5];
-                    let cfg = DlCfg { ep: 1, path: vec!["c10".into()], body: body_bytes(idx, len), reply_opts: reply_opts.clone(), tkl, strategy, typ: 0, abandon_after: None, vary_tkl: false, ..DlCfg::base() };
+                    let cfg = DlCfg { ep: 1, path: vec!["c10".into()], body: body_bytes(idx, len), reply_opts: reply_opts.clone(), tkl, strategy, typ: 0, abandon_after: None, vary_tkl: false, reply_code: if idx % 3 == 2 { REPLY_CODES[(idx / 3) as usize % REPLY_CODES.len()] } else { 0x45 }, ..DlCfg::base() };
                     dl_one(rep, m, &cfg, &mut ids, Scope::Budget);
                     rep.bucket(&format!("budget_minus_overhead_minus_12_near_2^{}", (m - overhead - 12).max(1).ilog2()));
                 }
@@ -1738,7 +1750,7 @@ pub fn run_c10(ctx: &mut Ctx) {
                     if len < 0 {
                         continue;
                     }
-                    let cfg = DlCfg { ep: 1, path: vec!["edge".into()], body: body_bytes(idx, len as usize), reply_opts: reply_opts.clone(), tkl, strategy: Strategy::Follow, typ: (idx % 2) as u8, abandon_after: None, vary_tkl: false, ..DlCfg::base() };
+                    let cfg = DlCfg { ep: 1, path: vec!["edge".into()], body: body_bytes(idx, len as usize), reply_opts: reply_opts.clone(), tkl, strategy: Strategy::Follow, typ: (idx % 2) as u8, abandon_after: None, vary_tkl: false, reply_code: if idx % 4 == 3 { REPLY_CODES[(idx / 4) as usize % REPLY_CODES.len()] } else { 0x45 }, ..DlCfg::base() };
                     dl_one(rep, m, &cfg, &mut ids, Scope::Budget);
                     rep.count("edge_of_fragmentation_cases");
                 }
@@ -1811,7 +1823,7 @@ pub fn run_c10(ctx: &mut Ctx) {
         // property's configuration: clients never raise the size, so a shrinking server ends this
         // transfer early (the acknowledgement itself is what C10 judges)
         let extra_from = if r.bool() { 0 } else { r.urange(1, 3) };
-        let cfg = UlCfg { ep: 4, path, body: body_bytes(r.next_u64(), len), szx, dups: vec![1], tkl, abandoned: None, extra, code: 3, extra_from, oversized_first_try: None, abandoned_size1: None, announce_size1: false };
+        let cfg = UlCfg { ep: 4, path, body: body_bytes(r.next_u64(), len), szx, dups: vec![1], tkl, abandoned: None, extra, code: *r.pick(&[3u8, 2, 7, 5, 6]), extra_from, oversized_first_try: None, abandoned_size1: None, announce_size1: false };
         if extra_from > 0 && !cfg.extra.is_empty() {
             rep.count("uploads_whose_later_blocks_carry_more_options");
         }
